@@ -7,6 +7,7 @@ line protocol (state = the dispatch sets extracted from math.go, sent first, as 
   arg <mode> <validated 0|1> <kind|iface> <A>             → ok <kind> <n> | wrapped <kind> <n> | float | nil | err <e>
   ret <mode> <kind|iface> <A>                             → …
   retnil <mode> <mapOrSlice 0|1>                          → nil | err <e>
+  retref <mode> <arr|map|struct|ptr> <vIsT 0|1> <tIsV 0|1> → same | rebuilt | err <e>
   sto <mode> <kind> <A>                                   → ok <kind> <n> | float | err <e>      (storeOp)
   prog <mode> <tok,tok,…>                                 → out <kind>:<n> … | stop err | stop outside | stop unknownVar
 operands as in C03:  v:<kind>:<n>   c:<kind>:<n>   f:<w>:<0|1>
@@ -27,6 +28,15 @@ def BRes.show : BRes → String
   | .nil => "nil"
   | .float => "float"
   | .err e => s!"err {e.name}"
+
+def RefRes.show : RefRes → String
+  | .same => "same"
+  | .rebuilt => "rebuilt"
+  | .err e => s!"err {e.name}"
+
+def parseRefKind : String → Option RefKind
+  | "arr" => some .arr | "map" => some .map | "struct" => some .struct | "ptr" => some .ptr
+  | _ => none
 
 def dropFirst (s : String) : String := String.ofList (s.toList.drop 1)
 
@@ -130,6 +140,10 @@ def step' (D : Dispatch) (line : String) : Dispatch × String :=
     match parseMode m with
     | some m => (D, (retNil m (b == "1")).show)
     | none => (D, "bad-input")
+  | ["retref", m, k, a, b] =>
+    match parseMode m, parseRefKind k with
+    | some m, some k => (D, (retRef m k (a == "1") (b == "1")).show)
+    | _, _ => (D, "bad-input")
   | ["sto", m, k, a] =>
     match parseMode m, Kind.parse k, parseOperand a with
     | some m, some k, some a => (D, (storeOp m k a).show)
